@@ -21,21 +21,22 @@ EXTRA = {
     'C01': {'lentil/fourier.py': ['dft2', 'idft2', '_dft2_matrices', '_dft2_coords']},
     'C02': {'lentil/propagate.py': ['propagate_dft', '_dft_alpha', '_mask_shape', '_mask_shift'], 'lentil/fourier.py': ['dft2', '_dft2_matrices', '_dft2_coords'],
             'lentil/wavefront.py': ['Wavefront.field', 'Wavefront.intensity']},
-    'C03': {'lentil/plane.py': ['Plane.multiply', '_plane_slice', 'TiltInterface.multiply', 'Tilt.__init__', 'Plane.fit_tilt'], 'lentil/util.py': ['boundary'],
+    'C03': {'lentil/plane.py': ['Plane.multiply', '_plane_slice', 'TiltInterface.multiply', 'Tilt.__init__', 'Plane.fit_tilt', 'Pupil.multiply'], 'lentil/util.py': ['boundary'],
             'lentil/propagate.py': ['_dft_alpha', 'propagate_dft'], 'lentil/field.py': ['Field.__mul__', 'reduce', '_reduce', '_disjoint', '_merge', 'insert'],
-            'lentil/fourier.py': ['dft2', '_dft2_matrices', '_dft2_coords'], 'lentil/wavefront.py': ['Wavefront.intensity', 'Wavefront.field']},
+            'lentil/fourier.py': ['dft2', '_dft2_matrices', '_dft2_coords'], 'lentil/wavefront.py': ['Wavefront.intensity', 'Wavefront.field', 'Wavefront.__mul__']},
     'C04': {'lentil/field.py': ['Field.__mul__', 'Field.shift'], 'lentil/plane.py': ['Plane.fit_tilt', 'Plane.ptt_vector', 'Tilt.shift', 'Tilt.__init__', 'TiltInterface.multiply', 'DispersiveTilt.shift']},
     'C05': {'lentil/util.py': ['normalize_power'], 'lentil/propagate.py': ['_fft2', 'propagate_fft', 'propagate_dft'], 'lentil/fourier.py': ['dft2', '_dft2_matrices']},
     'C06': {'lentil/field.py': ['Field.__mul__', 'Field._mul_scalar', 'Field._mul_array', '_mul_broadcast', 'insert', 'merge', '_merge', '_merge_shape', '_merge_slices',
                                 '_merge_offset', 'boundary', 'overlap', 'reduce', '_reduce', '_disjoint']},
     'C07': {'lentil/plane.py': ['Plane.multiply', '_mul_pixelscale', 'Pupil.multiply', 'Image.multiply', 'Plane.__init__', '_plane_slice', 'TiltInterface.multiply', 'Tilt.__init__'],
             'lentil/helper.py': ['boundary_slice', 'slice_offset'], 'lentil/util.py': ['boundary'], 'lentil/field.py': ['Field.__mul__', 'insert', 'reduce', '_reduce', '_disjoint', '_merge'], 'lentil/wavefront.py': ['Wavefront.field', 'Wavefront.intensity', 'Wavefront.insert', 'Wavefront.__mul__']},
+    'C08': {'lentil/plane.py': ['Image.multiply', 'TiltInterface.multiply', 'Plane.__init__', 'Plane.multiply'], 'lentil/ptype.py': ['ptype']},
     'C09': {'lentil/propagate.py': ['propagate_fft', '_fft_shape', '_fft2', 'scratch_shape', '_has_tilt'], 'lentil/util.py': ['pad']},
-    'C11': {'lentil/zernike.py': ['zernike', 'R', 'zernike_index', 'zernike_coordinates']},
+    'C11': {'lentil/zernike.py': ['zernike', 'R', 'zernike_index', 'zernike_coordinates'], 'lentil/util.py': ['centroid'], 'lentil/helper.py': ['mesh']},
     'C12': {'lentil/zernike.py': ['zernike_fit', 'zernike_remove', 'zernike_compose', 'zernike_basis']},
     'C13': {'lentil/radiometry.py': ['Spectrum._ufunc', '_interp_common', '_sampling', '_intersect', 'Spectrum.sample', 'Spectrum.to', 'Spectrum.copy']},
-    'C14': {'lentil/radiometry.py': ['Spectrum.to', 'planck_radiance', 'planck_exitance', 'vegaflux', 'Blackbody.__init__', 'Blackbody.sample', 'Blackbody.vegamag']},
-    'C15': {'lentil/radiometry.py': ['Spectrum.integrate', 'Spectrum.bin', 'Spectrum.crop', 'Spectrum.trim', 'Spectrum.pad', 'Spectrum.append', 'Spectrum.resample', 'Spectrum.ends', 'Spectrum.sample']},
+    'C14': {'lentil/radiometry.py': ['Blackbody.sample_vegamag', 'Unit', 'Spectrum.to', 'planck_radiance', 'planck_exitance', 'vegaflux', 'Blackbody.__init__', 'Blackbody.sample', 'Blackbody.vegamag']},
+    'C15': {'lentil/radiometry.py': ['_sampling', 'Spectrum.integrate', 'Spectrum.bin', 'Spectrum.crop', 'Spectrum.trim', 'Spectrum.pad', 'Spectrum.append', 'Spectrum.resample', 'Spectrum.ends', 'Spectrum.sample']},
     'C16': {'lentil/detector.py': ['collect_charge', 'collect_charge_bayer', 'adc', 'qe_asarray', 'format_bayer_string'], 'lentil/radiometry.py': ['Spectrum.sample']},
     'C17': {'lentil/plane.py': ['Plane.rescale', 'Plane.resample', 'Plane.copy'], 'lentil/util.py': ['rescale']},
     'C18': {'lentil/detector.py': ['shot_noise', 'read_noise', 'dark_current', 'rule07_dark_current'], 'lentil/wfe.py': ['power_spectrum']},
